@@ -53,6 +53,7 @@ type vfC37Case struct {
 	Chans       []vfC37Chan
 	ConnectSubs int
 	Page        int // page size of map subscribes
+	Batch       int // 0 = no per-channel batching; else ChannelBatchConfig.MaxSize (publications reach the writer through enqueueMany)
 	Steps       []vfC37Step
 	FinalOrder  []int
 }
@@ -117,7 +118,7 @@ func (c vfC37Case) String() string {
 	for i, ch := range c.Chans {
 		keys[i] = ch.Keys
 	}
-	return fmt.Sprintf("limit=%d maxLen=%d queueMax=%d proto=%s chans=%q keys=%v page=%d connectSubs=%d steps=[%s] finalOrder=%v", c.Limit, c.MaxLen, c.QueueMax,
+	return fmt.Sprintf("limit=%d maxLen=%d queueMax=%d batch=%d proto=%s chans=%q keys=%v page=%d connectSubs=%d steps=[%s] finalOrder=%v", c.Limit, c.MaxLen, c.QueueMax, c.Batch,
 		c.Proto, c.names(), keys, c.Page, c.ConnectSubs, strings.Join(st, " "), c.FinalOrder)
 }
 
@@ -126,6 +127,10 @@ func vfC37Gen(rt *rapid.T) vfC37Case {
 	c.Limit = rapid.IntRange(1, 4).Draw(rt, "limit")
 	c.MaxLen = rapid.IntRange(1, 16).Draw(rt, "maxLen")
 	c.QueueMax = rapid.SampledFrom([]int{300, 400, 512, 700, 1000, 1500}).Draw(rt, "queueMax")
+	c.Batch = rapid.SampledFrom([]int{0, 3, 0, 4}).Draw(rt, "batch")
+	if c.Batch > 0 && c.QueueMax < 700 {
+		c.QueueMax = 700 // one calibration batch written through an idle queue must stay well below the maximum
+	}
 	c.Proto = rapid.SampledFrom([]ProtocolType{ProtocolTypeJSON, ProtocolTypeProtobuf}).Draw(rt, "proto")
 	c.Page = rapid.SampledFrom([]int{1, 2}).Draw(rt, "page")
 	nch := c.Limit + 3
@@ -201,6 +206,9 @@ func vfC37Run(t *testing.T, cs vfC37Case, out *vfC37Out, isKnown func(string) bo
 			Map: MapConfig{GetMapChannelOptions: func(string) MapChannelOptions {
 				return MapChannelOptions{Mode: MapModeEphemeral, KeyTTL: time.Hour, MinPageSize: 1, DefaultPageSize: 2}
 			}}}
+		if cs.Batch > 0 {
+			cfg.GetChannelBatchConfig = func(string) ChannelBatchConfig { return ChannelBatchConfig{MaxSize: int64(cs.Batch)} }
+		}
 		w, err := vfNewWorld(cfg, nil)
 		if err != nil {
 			return "infra: " + err.Error()
@@ -775,17 +783,37 @@ func vfC37Burst(w *vfWorld, conn *vfConn, cs vfC37Case, s vfC37Step, where strin
 			_ = client.Send(payload(it.Size))
 		}
 	}
+	// With per-channel batching publications are buffered per channel and handed to the connection writer K at a time
+	// through enqueueMany: every item becomes a publication, their number is padded to a multiple of K and the payloads
+	// are kept small enough for one batch to pass an idle queue.
+	items := s.Items
+	copies := 1
+	if cs.Batch > 0 && pubCh != "" {
+		copies = cs.Batch
+		room := cs.QueueMax/(2*cs.Batch) - 80
+		if room < 1 {
+			room = 1
+		}
+		items = nil
+		for i := 0; i < len(s.Items) || len(items)%cs.Batch != 0; i++ {
+			it := s.Items[i%len(s.Items)]
+			items = append(items, vfC37Item{Pub: true, Size: 2 + it.Size%room})
+		}
+		label("burst_through_enqueue_many")
+	}
 	// 1. calibration run with an open gate: exact frame size of every item
-	sizes := make([]int, len(s.Items))
-	for i, it := range s.Items {
+	sizes := make([]int, len(items))
+	for i, it := range items {
 		n0 := len(conn.Frames())
-		deliver(it)
+		for k := 0; k < copies; k++ {
+			deliver(it)
+		}
 		vfSettle()
 		fs := conn.Frames()
 		if c, d := conn.T.Closed(); c {
 			return fmt.Sprintf("%s: connection closed (%d %s) while a single message of payload %d was written with an idle queue (max %d)", where, d.Code, d.Reason, it.Size, cs.QueueMax)
 		}
-		if len(fs) != n0+1 {
+		if len(fs) != n0+copies {
 			return fmt.Sprintf("infra: %s: calibration item %d produced %d frames", where, i, len(fs)-n0)
 		}
 		sizes[i] = len(fs[n0].Raw)
@@ -808,7 +836,7 @@ func vfC37Burst(w *vfWorld, conn *vfConn, cs vfC37Case, s vfC37Step, where strin
 	}
 	// 3. no settle from here until the gate is released: close() of a slow connection waits on the writer's mutex
 	pending := 0
-	for _, it := range s.Items {
+	for _, it := range items {
 		deliver(it)
 	}
 	for _, sz := range sizes {
